@@ -82,7 +82,12 @@ def differs(a, b):
         return z3.BoolVal(a != b)
     sa, sb = symx.lift(a), symx.lift(b)
     if sa.isf or sb.isf:
-        return symx.term(sa, real=True) != symx.term(sb, real=True)
+        # floats are reals here, but sub-computations on concrete values are carried out in binary64 by the code under analysis:
+        # differences within a relative 1e-9 are rounding, not behaviour (the concrete replay uses the same tolerance)
+        x, y = symx.term(sa, real=True), symx.term(sb, real=True)
+        d = x - y
+        tol = z3.RealVal("1/1000000000") * (1 + z3.If(x >= 0, x, -x))
+        return z3.Or(d > tol, -d > tol)
     return sa.e != sb.e
 
 
